@@ -36,6 +36,7 @@ from sqlalchemy import (
     LargeBinary,
     String,
     and_,
+    bindparam,
     create_engine,
     event,
     inspect,
@@ -2973,8 +2974,11 @@ class RedunBackendDb(RedunBackend):
         """
         assert self.session
 
+        # Bind the value as a JSON parameter: a literal None would render as SQL NULL, which
+        # never compares equal, so a tag whose value is JSON null could not be deleted.
         conditions = [
-            and_(Tag.key == key, Tag.value == sa_cast(value, JSON)) for key, value in tags
+            and_(Tag.key == key, Tag.value == sa_cast(bindparam(None, value, type_=JSON), JSON))
+            for key, value in tags
         ]
         if keys:
             conditions.append(Tag.key.in_(keys))
